@@ -15,8 +15,8 @@ LEAN_PROPS = 'PlumpyModel.Props.C03'
 ASSUMPTIONS = [
     'exactly one injected fault per run: (hook point, occurrence index, raise before / after calling super())',
     'scenarios: plain run (outputs, Continue, Wait/resume), run with pause/play at every position, run with kill at every '
-    'position, run with a call_soon callback, requests issued by listeners from inside notifications; asyncio driven one '
-    'callback at a time',
+    'position, run with a call_soon callback, fail() requested at every position, requests issued by listeners from inside '
+    'notifications (also while a pause / play hook is failing); asyncio driven one callback at a time',
     'hooks of the EXCEPTED state itself (on_except, on_excepted) are not fault points: they only run after another failure',
     'the n-th out() call of the harness process is mapped to (step function, await points before it) by the harness (OUT_AT)',
 ]
@@ -53,11 +53,13 @@ def _wrap(name):
         f = self._fault
         hit = f is not None and f[0] == 'hook' and f[1] == name and f[2] == n
         if hit and f[3] == 'before':
+            self._on_fault()
             self._fault_fired = self._fault_exc
             self._fault_ctx = (self.state.value, list(getattr(self, '_entered_ref', [])))
             raise self._fault_exc
         r = getattr(super(Proc, self), name)(*a, **kw)
         if hit and f[3] == 'after':
+            self._on_fault()
             self._fault_fired = self._fault_exc
             self._fault_ctx = (self.state.value, list(getattr(self, '_entered_ref', [])))
             raise self._fault_exc
@@ -66,8 +68,16 @@ def _wrap(name):
     return hook
 
 
+class UserFail(Exception):
+    """the exception of a `fail()` request of the schedule (the model's `user9`)"""
+
+
 class Proc(plumpy.Process):
     _fault = None
+
+    def _on_fault(self):       # replaced per run: what the harness wants to know at the moment the fault is raised
+        pass
+
     _fault_fired = None
     _fault_ctx = None
 
@@ -196,7 +206,7 @@ def run_case(case):
     fault_name = 'user8' if fault is not None and fault[0] == 'callback' else 'user99'
 
     def excname(e):
-        return fault_name if isinstance(e, FaultExc) else type(e).__name__
+        return fault_name if isinstance(e, FaultExc) else 'user9' if isinstance(e, UserFail) else type(e).__name__
 
     def on_loop_error(_loop, context):
         # an unretrieved exception on an abandoned future (reported by the garbage collector) did not escape from a callback
@@ -230,16 +240,22 @@ def run_case(case):
     p.add_state_event_callback(StateEventHook.ENTERED_STATE, lambda sm, h, st: entered.append(sm.state.value))
     task = loop.create_task(p.step_until_terminated())
     handed, handed_objs = [], []
+    p._on_fault = lambda: res.__setitem__('superseded_at_fault', any(op == 'pause' and a.cancelled() for op, a in handed))
     ops, obs, rep = [], [], []
     cb_handles = []
 
     def fstat(a):
         return ('P' if not a.done() else 'C' if a.cancelled() else 'E:' + excname(a.exception()) if a.exception() is not None else 'D')
 
+    def peek_exception(f):
+        # what `f.exception()` would return, WITHOUT marking the exception as retrieved (whether anybody retrieved the failure of
+        # the process is itself observed at the end of the run: `unretrieved`)
+        return f._exception if hasattr(f, '_exception') else f.exception()
+
     def observe(ret):
         f = p.future()
         fs = ('pending' if not f.done() else 'cancelled' if f.cancelled() else
-              'exc:' + excname(f.exception()) if f.exception() is not None else 'result')
+              'exc:' + excname(peek_exception(f)) if peek_exception(f) is not None else 'result')
         ts = 'pending' if not task.done() else 'crashed' if (task.cancelled() or task.exception() is not None) else 'done'
         st = p.state
         if st == ps.ProcessState.FINISHED:
@@ -270,6 +286,8 @@ def run_case(case):
                 r = p.kill('km')
             elif op == 'resume':
                 r = p.resume(7)
+            elif op == 'fail':
+                r = p.fail(UserFail('requested'), None)
             elif op == 'callsoon':
                 def cb():
                     if fault is not None and fault[0] == 'callback':
@@ -329,11 +347,13 @@ def run_case(case):
     if not p.has_terminated() and fault is not None and fault[0] == 'hook' and fault[1] in PAUSE_HOOKS and p._fault_fired is not None:
         if p.paused:
             do('play')
+        n_paused = lis.ev.count('on_process_paused')
         do('pause')
         k = 0
-        while k < 50 and not p.paused and not p.has_terminated() and tick():
+        while k < 50 and not p.paused and not p.has_terminated() and lis.ev.count('on_process_paused') == n_paused and tick():
             k += 1
-        res['probe_pause'] = bool(p.paused) or p.has_terminated()
+        # (took effect: paused now, or paused and played again at once by a listener of the plan)
+        res['probe_pause'] = bool(p.paused) or p.has_terminated() or lis.ev.count('on_process_paused') > n_paused
     # completion: play, resume, drain
     for _ in range(4):
         if not p.has_terminated():
@@ -456,7 +476,9 @@ def monitors(case, res, base):
                    closed=res['closed'], future=res['future'], task=res['task']))
     elif kind == 'hook':  # pause / play hooks
         reported = any(c['raised_is_fault'] for c in res['calls']) or any(st == 'exc-fault' for _op, st in res['handed'])
-        if not reported:
+        # (a pause request that was superseded by a kill - its action future cancelled - before the hook failed has nobody left to
+        # report to: the failure is logged and the kill is served)
+        if not reported and not res.get('superseded_at_fault'):
             F('c03-pause-fault-not-reported', 'a fault in a pause or play hook is reported to whoever requested the pause or play',
               dict(calls=res['calls'], handed=res['handed']))
         if res.get('ran_paused'):
@@ -525,17 +547,26 @@ def gen_cases(ctx):
     for st in STEPS:
         for plan in plans:
             cases.append(dict(fault=('step', st, 1, 'before'), schedule={}, plan=plan))
+    # a pause / play hook failing inside a request that a listener issued from inside another pause / play / transition, or while a
+    # listener interferes with the pause that is being enacted (F28: the superseded pause action)
+    for h in PAUSE_HOOKS:
+        for o in (1, 2):
+            for v in ('before', 'after'):
+                for plan in plans:
+                    for sc in ({0: ['pause'], 2: ['play']}, {1: ['pause'], 4: ['play']}):
+                        cases.append(dict(fault=('hook', h, o, v), schedule=sc, plan=plan))
+    # fail() requested by the environment at every position: the hooks of the transition it starts (F30: on_exit_waiting raising
+    # while the stepping task is suspended on the wait of the state being left)
+    for h in STATE_HOOKS:
+        for o in (1, 2):
+            for v in ('before', 'after'):
+                for i in P:
+                    cases.append(dict(fault=('hook', h, o, v), schedule={i: ['fail']}))
     return cases
 
 
-# NOT part of the enumeration (the monitors of the pause / play hooks assume that nothing but the schedule pauses or plays): a pause
-# / play hook failing while a LISTENER interferes with the pause that is being enacted.  The model (`pmodel faultrun`) agrees with
-# the code on all 528 such cases (PAUSE_HOOKS x occurrence <= 2 x before/after x the 22 plans x 2 schedules), and both show a
-# defect: when the pending pause action performs the step's transition, a listener of that transition calls kill() (which
-# supersedes, i.e. cancels, the pause action that is running) and on_pausing / on_paused then raises, `CancellableAction.run`
-# re-raises ("cancelled while it was running, there is no one left to report to"), the exception leaves `Process.step` and the
-# stepping task dies with it: the process stays RUNNING, the kill action is cancelled by the `finally`, `_killing` keeps pointing at
-# it.  Lean witness: `PMF.FP.C03_witness_superseded_pause_action_escapes` (Props/C03.lean).
+# (round 4, findings F28 / F30: the case in which the pending pause action performs the step's transition, a listener of that
+# transition calls kill() - which cancels the running pause action - and on_pausing then raises; it is case of the enumeration now)
 NESTED_WITNESS = dict(fault=('hook', 'on_pausing', 1, 'before'), schedule={1: ['pause'], 4: ['play']},
                       plan=[(('on_process_running', 2), 'kill')])
 
